@@ -121,3 +121,61 @@ impl<'a> Future for JoinFut<'a> {
         }
     }
 }
+
+/// Drives `inner` with polls that alternate between a fresh thread (first) and the polling thread, the
+/// way a work-stealing runtime moves a task between workers.
+pub struct Alternating<'a, F> {
+    inner: Pin<Box<F>>,
+    polls: usize,
+    after_foreign_poll: &'a (dyn Fn() + Sync),
+    fail: &'a std::sync::Mutex<Option<vcore::Fail>>,
+}
+
+pub fn alternating<'a, F: Future<Output = ()> + Send>(
+    inner: F,
+    after_foreign_poll: &'a (dyn Fn() + Sync),
+    fail: &'a std::sync::Mutex<Option<vcore::Fail>>,
+) -> Alternating<'a, F> {
+    Alternating { inner: Box::pin(inner), polls: 0, after_foreign_poll, fail }
+}
+
+impl<'a, F: Future<Output = ()> + Send> Future for Alternating<'a, F> {
+    type Output = ();
+    fn poll(mut self: Pin<&mut Self>, cx: &mut Context<'_>) -> Poll<()> {
+        let this = &mut *self;
+        let elsewhere = this.polls % 2 == 0;
+        this.polls += 1;
+        if !elsewhere {
+            return this.inner.as_mut().poll(cx);
+        }
+        let inner = &mut this.inner;
+        let hook = this.after_foreign_poll;
+        let r = std::thread::scope(|s| {
+            s.spawn(|| {
+                vcore::catch(|| {
+                    let ready = inner.as_mut().poll(&mut Context::from_waker(Waker::noop())).is_ready();
+                    hook();
+                    ready
+                })
+            })
+            .join()
+        });
+        let ready = match r {
+            Ok(Ok(ready)) => ready,
+            Ok(Err(f)) => {
+                this.fail.lock().unwrap().get_or_insert(f);
+                true
+            }
+            Err(_) => {
+                this.fail.lock().unwrap().get_or_insert(vcore::Fail::new("panic@poll-thread", "poll thread died"));
+                true
+            }
+        };
+        if ready {
+            Poll::Ready(())
+        } else {
+            cx.waker().wake_by_ref();
+            Poll::Pending
+        }
+    }
+}
